@@ -140,12 +140,15 @@ func (vc *VC) execBlock(fr *frame, st *State, stmts []ast.Stmt) *State {
 			for _, o := range outs {
 				if fr.stmtOrd != nil && fr.contract != nil {
 					if n, ok := fr.stmtOrd[s]; ok {
-						label := fmt.Sprintf("stmt%d", n)
-						if len(fr.contract.At[label]) > 0 {
-							saved := fr.specPos
-							fr.specPos = s.End()
-							vc.applyHints(fr, o, label)
-							fr.specPos = saved
+						for _, label := range []string{fmt.Sprintf("stmt%d", n), fr.stmtKey[s]} {
+							if label != "" && len(fr.contract.At[label]) > 0 {
+								saved := fr.specPos
+								fr.specPos = s.End()
+								vc.hintName = fmt.Sprintf("stmt%d", n)
+								vc.applyHints(fr, o, label)
+								vc.hintName = ""
+								fr.specPos = saved
+							}
 						}
 					}
 				}
@@ -168,12 +171,15 @@ func (vc *VC) execBlock(fr *frame, st *State, stmts []ast.Stmt) *State {
 		// Go locals in scope there
 		if st != nil && fr.stmtOrd != nil && fr.contract != nil && !fr.inlined {
 			if n, ok := fr.stmtOrd[s]; ok {
-				label := fmt.Sprintf("stmt%d", n)
-				if len(fr.contract.At[label]) > 0 {
-					saved := fr.specPos
-					fr.specPos = s.End()
-					vc.applyHints(fr, st, label)
-					fr.specPos = saved
+				for _, label := range []string{fmt.Sprintf("stmt%d", n), fr.stmtKey[s]} {
+					if label != "" && len(fr.contract.At[label]) > 0 {
+						saved := fr.specPos
+						fr.specPos = s.End()
+						vc.hintName = fmt.Sprintf("stmt%d", n)
+						vc.applyHints(fr, st, label)
+						vc.hintName = ""
+						fr.specPos = saved
+					}
 				}
 			}
 		}
